@@ -30,7 +30,13 @@ class Ctx:
         """FnView of a workspace function by normalised def-path, or None."""
         f = self.prog.fn(path, unit)
         if f is None:
-            return None
+            # a pinned function that is gone (not moved, not renamed): if it had exactly one pinned caller, its code can
+            # only have been merged into that caller -- the rules anchored at it look for their shapes there
+            host = getattr(self.prog, "absorbed_into", {}).get(path)
+            f = self.prog.fn(host, unit) if host else None
+            if f is None:
+                return None
+            self.notes.append("anchored function %s is gone; judged inside its only pinned caller %s" % (path, host))
         k = (f["unit"], f["npath"])
         if k not in self._views:
             self._views[k] = FnView(self.prog, f)
